@@ -200,7 +200,9 @@ class Interp:
                     return r.value
             if is_gen:
                 # generators are evaluated eagerly: sound for consumers that exhaust them at the call site
-                return ListV(frame.yields)
+                lv = ListV(frame.yields)
+                lv.lazy = True
+                return lv
             return NONE
         finally:
             self.depth -= 1
@@ -427,6 +429,8 @@ class Interp:
     def ex_Subscript(self, node):
         obj = self.eval(node.value)
         if isinstance(node.slice, ast.Slice):
+            if node.slice.step is not None:
+                self.unsupported(node, "slice step")
             lo = self.eval(node.slice.lower) if node.slice.lower else None
             hi = self.eval(node.slice.upper) if node.slice.upper else None
             return self.models.get_slice(obj, lo, hi, node)
@@ -519,7 +523,10 @@ class Interp:
         return self._comp(node, node.elt, as_list=True)
 
     def ex_GeneratorExp(self, node):
-        return self._comp(node, node.elt, as_list=True)
+        v = self._comp(node, node.elt, as_list=True)
+        if isinstance(v, ListV):
+            v.lazy = True
+        return v
 
     def _comp(self, node, elt, as_list):
         if len(node.generators) != 1:
